@@ -100,6 +100,11 @@ class RefinementMonitor:
                 if (m0[r, c] ^ m1[r, c]) & ~B3:
                     self.v("foreign_bit_changed", ev, side, pixel=[r, c], before=int(m0[r, c]), after=int(m1[r, c]))
                     return
+                if x0 < gmin - 1e-6 or x0 > gmax + 1e-6:
+                    # received from an earlier step already outside the searched interval (e.g. mc-cnn filling can
+                    # output 0.0): nothing the refinement clause can be held to, apart from not moving it further
+                    ctx.probe("input_already_outside_interval")
+                    continue
                 pos = (x0 - gmin) * subpix
                 # exactly on a sampled disparity (float32 values of samples are exact): a value that is off by 1e-8
                 # (left by a bilateral filter) is an off-sample input for the implementation, which truncates it
